@@ -302,6 +302,9 @@ class SymArray(_np.ndarray):
         if isinstance(key, Sym) and key.t.sort == tm.B:
             key = bool(key.value())
         key = _fix_key(key)
+        eng = get_engine()
+        if eng is not None and eng.guard_stack:
+            return self._guarded_assign(eng, key, value)
         if _key_has_symmask(key):
             return self._masked_assign(key, value)
         if self.dtype == object:
@@ -312,6 +315,28 @@ class SymArray(_np.ndarray):
                 raise LeftFragment('symbolic value stored into a native %s array' % self.dtype)
             raise LeftFragment('symbolic value stored into a native %s array' % self.dtype)
         _np.ndarray.__setitem__(self, key, value)
+
+    def _guarded_assign(self, eng, key, value):
+        """element store inside a merged conditional: a[key] = ite(guard, value, a[key])"""
+        if _key_has_symmask(key):
+            raise LeftFragment('masked store inside a merged conditional')
+        g = tm.and_(*eng.guard_stack)
+        if self.dtype != object:
+            raise LeftFragment('store into a native %s array inside a merged conditional' % self.dtype)
+        base = self.view(_np.ndarray)
+        old = _np.ndarray.__getitem__(base, key)
+        value = _lift_value(value)
+        if isinstance(old, _np.ndarray):
+            vb = _np.broadcast_to(_np.asarray(value, dtype=object), old.shape)
+            new = _np.empty(old.shape, dtype=object)
+            for idx in _np.ndindex(old.shape):
+                new[idx] = select(g, vb[idx], old[idx])
+                eng.guard_log.append((id(self), (key, idx), g, vb[idx], old[idx]))
+            _np.ndarray.__setitem__(base, key, new)
+        else:
+            v = value.item() if isinstance(value, _np.ndarray) and value.ndim == 0 else value
+            _np.ndarray.__setitem__(base, key, select(g, v, old))
+            eng.guard_log.append((id(self), key, g, v, old))
 
     def _masked_assign(self, mask, value):
         if isinstance(mask, tuple):
@@ -1160,6 +1185,22 @@ def _wrap_light(r):
     if isinstance(r, _np.floating):
         return _lf(r)
     return r
+
+
+def select(g, a, b):
+    """ite(g, a, b) for scalars (g a Bool term)"""
+    if a is b:
+        return a
+    if isinstance(a, _Uninit) or isinstance(b, _Uninit):
+        if isinstance(a, _Uninit) and isinstance(b, _Uninit):
+            return a
+        raise LeftFragment('merge of an initialised and an uninitialised value')
+    ta, tb = lift(_lf(a)), lift(_lf(b))
+    if ta is None or tb is None:
+        if a == b:
+            return a
+        raise LeftFragment('merge of non-numeric values %r / %r' % (a, b))
+    return Sym(tm.ite(g, ta, tb))
 
 
 class _LcmGcd(object):
